@@ -1,6 +1,47 @@
-(** C19 -- placeholder until Proofs/OptionsProof.v is integrated *)
-From SQ Require Import Base Table.
-Theorem C19_quiet_iff_Q : forall o, quiet o = existsb (fun c => N.eqb c 81) (display_info o).
-Proof. reflexivity. Qed.
-Check C19_quiet_iff_Q : forall o, quiet o = existsb (fun c => N.eqb c 81) (display_info o).
-Print Assumptions C19_quiet_iff_Q.
+(** C19 -- presentation options never change what is decoded; -U is decode-neutral. *)
+From SQ Require Import Base Table Update OptionsProof.
+Local Open Scope N_scope.
+
+(** one step: option records that agree on use_update, relaxed, filter, delete_after and observer produce the same table (and sweep counter) from the same line, whatever -i -o -c -u are *)
+Theorem C19_presentation_step : forall (o1 o2 : opts) (now : Z) (s1 s2 : state) (line : list N) (s1' : state) (rf1 : bool) (oc1 : line_outcome), same_core o1 o2 -> tbl s1 = tbl s2 -> cleanup_count (cnt s1) = cleanup_count (cnt s2) -> step_line o1 now s1 line = Ok (s1', rf1, oc1) -> exists (s2' : state) (rf2 : bool), step_line o2 now s2 line = Ok (s2', rf2, oc1) /\ tbl s2' = tbl s1' /\ cleanup_count (cnt s2') = cleanup_count (cnt s1').
+Proof. exact presentation_step. Qed.
+Check C19_presentation_step : forall (o1 o2 : opts) (now : Z) (s1 s2 : state) (line : list N) (s1' : state) (rf1 : bool) (oc1 : line_outcome), same_core o1 o2 -> tbl s1 = tbl s2 -> cleanup_count (cnt s1) = cleanup_count (cnt s2) -> step_line o1 now s1 line = Ok (s1', rf1, oc1) -> exists (s2' : state) (rf2 : bool), step_line o2 now s2 line = Ok (s2', rf2, oc1) /\ tbl s2' = tbl s1' /\ cleanup_count (cnt s2') = cleanup_count (cnt s1').
+Print Assumptions C19_presentation_step.
+
+(** the same for every stream, by induction *)
+Theorem C19_presentation_stream : forall (o1 o2 : opts) (now : Z) (ls : list (option (list N))) (s1 s2 s1' : state), same_core o1 o2 -> tbl s1 = tbl s2 -> cleanup_count (cnt s1) = cleanup_count (cnt s2) -> run_lines o1 now s1 ls = Ok s1' -> exists s2' : state, run_lines o2 now s2 ls = Ok s2' /\ tbl s2' = tbl s1' /\ cleanup_count (cnt s2') = cleanup_count (cnt s1').
+Proof. exact presentation_run. Qed.
+Check C19_presentation_stream : forall (o1 o2 : opts) (now : Z) (ls : list (option (list N))) (s1 s2 s1' : state), same_core o1 o2 -> tbl s1 = tbl s2 -> cleanup_count (cnt s1) = cleanup_count (cnt s2) -> run_lines o1 now s1 ls = Ok s1' -> exists s2' : state, run_lines o2 now s2 ls = Ok s2' /\ tbl s2' = tbl s1' /\ cleanup_count (cnt s2') = cleanup_count (cnt s1').
+Print Assumptions C19_presentation_stream.
+
+(** hence the whole reader run computes the same table *)
+Theorem C19_presentation : forall (o1 o2 : opts) (now : Z) (t : table) (bs : list N), same_core o1 o2 -> read_lines o1 now t bs = read_lines o2 now t bs.
+Proof. exact presentation_read_lines. Qed.
+Check C19_presentation : forall (o1 o2 : opts) (now : Z) (t : table) (bs : list N), same_core o1 o2 -> read_lines o1 now t bs = read_lines o2 now t bs.
+Print Assumptions C19_presentation.
+
+(** option records differing only in -O give tables with the same aircraft in which every row agrees on every field except the distance *)
+Theorem C19_observer_only_distance : forall (o1 o2 : opts) (now : Z) (t : table) (bs : list N) (t1 : table), only_observer o1 o2 -> read_lines o1 now t bs = Ok t1 -> exists t2 : table, read_lines o2 now t bs = Ok t2 /\ tbl_rel t1 t2.
+Proof. exact observer_only_distance. Qed.
+Check C19_observer_only_distance : forall (o1 o2 : opts) (now : Z) (t : table) (bs : list N) (t1 : table), only_observer o1 o2 -> read_lines o1 now t bs = Ok t1 -> exists t2 : table, read_lines o2 now t bs = Ok t2 /\ tbl_rel t1 t2.
+Print Assumptions C19_observer_only_distance.
+
+(** (what the relation means for a row looked up by address) *)
+Theorem C19_observer_rows : forall (t1 t2 : table) (a : N) (r1 : row), tbl_rel t1 t2 -> lookup t1 a = Some r1 -> exists r2 : row, lookup t2 a = Some r2 /\ (forall f : Footprint.fld, f <> Footprint.F_dist -> Footprint.same f r1 r2).
+Proof. exact tbl_rel_lookup. Qed.
+Check C19_observer_rows : forall (t1 t2 : table) (a : N) (r1 : row), tbl_rel t1 t2 -> lookup t1 a = Some r1 -> exists r2 : row, lookup t2 a = Some r2 /\ (forall f : Footprint.fld, f <> Footprint.F_dist -> Footprint.same f r1 r2).
+Print Assumptions C19_observer_rows.
+
+(** -U neutrality, one frame on an existing row: for a DF4/5/11/17 frame whose carried value is valid (DF4: a decodable altitude) the squitter path and the downlink path agree on callsign, altitude, squawk, position, distance, ground speed, track, vertical rate, category, surveillance status, the CPR slots, position time and last-contact time, whenever the two rows agreed on them before *)
+Theorem C19_U_neutral_frame : forall (obs : option (Q * Q)) (now : Z) (r1 r2 : row) (m : list N) (df : N) (d : downlink) (rel : bool) (r1' : row) (a : N), agree r1 r2 -> get_downlink_format m = Ok (Some df) -> get_icao m df = Ok (Some a) -> df = 4 \/ df = 5 \/ df = 11 \/ df = 17 -> (df = 4 -> exists alt : N, altitude m 4 = Ok (Some alt)) -> df_from_message m = Ok (Some d) -> plane_update obs now r1 m df rel = Ok r1' -> agree r1' (update_from_downlink obs now r2 d).
+Proof. exact u_neutral. Qed.
+Check C19_U_neutral_frame : forall (obs : option (Q * Q)) (now : Z) (r1 r2 : row) (m : list N) (df : N) (d : downlink) (rel : bool) (r1' : row) (a : N), agree r1 r2 -> get_downlink_format m = Ok (Some df) -> get_icao m df = Ok (Some a) -> df = 4 \/ df = 5 \/ df = 11 \/ df = 17 -> (df = 4 -> exists alt : N, altitude m 4 = Ok (Some alt)) -> df_from_message m = Ok (Some d) -> plane_update obs now r1 m df rel = Ok r1' -> agree r1' (update_from_downlink obs now r2 d).
+Print Assumptions C19_U_neutral_frame.
+
+(** lifted to the table update under use_update = true vs false *)
+Theorem C19_U_neutral_table : forall (o1 o2 : opts) (now : Z) (t : table) (d : downlink) (m : list N) (df a : N) (r : row) (t1 : table), use_update o1 = true -> use_update o2 = false -> relaxed o1 = relaxed o2 -> observer o1 = observer o2 -> lookup t a = Some r -> get_downlink_format m = Ok (Some df) -> get_icao m df = Ok (Some a) -> df = 4 \/ df = 5 \/ df = 11 \/ df = 17 -> (df = 4 -> exists alt : N, altitude m 4 = Ok (Some alt)) -> df_from_message m = Ok (Some d) -> update_aircraft o1 now t d m df a = Ok t1 -> exists (t2 : table) (ra rb : row), update_aircraft o2 now t d m df a = Ok t2 /\ lookup t1 a = Some ra /\ lookup t2 a = Some rb /\ agree ra rb /\ TableProofs.keys t1 = TableProofs.keys t2.
+Proof. exact u_neutral_update_aircraft. Qed.
+Check C19_U_neutral_table : forall (o1 o2 : opts) (now : Z) (t : table) (d : downlink) (m : list N) (df a : N) (r : row) (t1 : table), use_update o1 = true -> use_update o2 = false -> relaxed o1 = relaxed o2 -> observer o1 = observer o2 -> lookup t a = Some r -> get_downlink_format m = Ok (Some df) -> get_icao m df = Ok (Some a) -> df = 4 \/ df = 5 \/ df = 11 \/ df = 17 -> (df = 4 -> exists alt : N, altitude m 4 = Ok (Some alt)) -> df_from_message m = Ok (Some d) -> update_aircraft o1 now t d m df a = Ok t1 -> exists (t2 : table) (ra rb : row), update_aircraft o2 now t d m df a = Ok t2 /\ lookup t1 a = Some ra /\ lookup t2 a = Some rb /\ agree ra rb /\ TableProofs.keys t1 = TableProofs.keys t2.
+Print Assumptions C19_U_neutral_table.
+
+
